@@ -97,13 +97,27 @@ impl Mempool {
             gt.target.to_hex(),
             gt.public_key.to_base58()
         );
-        // TODO : should we replace others' GT with our GT if targets are similar ?
-        if self.golden_tickets.contains_key(&gt.target) {
-            debug!(
-                "similar golden ticket already exists : {:?}",
-                gt.target.to_hex()
-            );
-            return;
+        if let Some((filed, _)) = self.golden_tickets.get(&gt.target) {
+            // the first ticket filed for a block shadows every later one, and nobody has looked at its
+            // solution yet (the bundler does, and drops it if it does not solve the tip). this node's own
+            // miner only hands in tickets that solve their target: its ticket takes the place of a ticket
+            // that came in under another key, so that an unsolved ticket of a peer cannot cost the node
+            // its own
+            let public_key = self.wallet_lock.read().await.public_key;
+            let is_own = |transaction: &Transaction| {
+                transaction
+                    .from
+                    .first()
+                    .map(|input| input.public_key == public_key)
+                    .unwrap_or(false)
+            };
+            if !(is_own(&golden_ticket) && !is_own(filed)) {
+                debug!(
+                    "similar golden ticket already exists : {:?}",
+                    gt.target.to_hex()
+                );
+                return;
+            }
         }
         self.golden_tickets
             .insert(gt.target, (golden_ticket, false));
